@@ -220,6 +220,8 @@ func Execute(p *Plan, scratch string) (res *Result) {
 	switch sim.AbortReason {
 	case "deadlock":
 		r.setViol("deadlock", "deadlock: "+normGraph(sim.AbortDetail), "all requests complete", sim.AbortDetail)
+	case "wedged":
+		r.setViol("progress", "requests block behind a client that stopped sending its request body: "+normGraph(sim.AbortDetail), "other requests complete", sim.AbortDetail)
 	case "step-budget":
 		r.setViol("progress", "no progress within the step budget", "request completes", sim.AbortDetail)
 	}
